@@ -277,6 +277,10 @@ fn run_pack_one(rep: &mut Report, s: &Seed, dst_len: usize, fill: u8) {
 }
 
 fn run_unpack(rep: &mut Report, cfg: &[u8; 32], to_coq: bool) {
+    // the config is read from a varying offset from an aligned address
+    static SHIFT: std::sync::atomic::AtomicUsize = std::sync::atomic::AtomicUsize::new(0);
+    let shifted = emit::Shifted::new(cfg, SHIFT.fetch_add(1, std::sync::atomic::Ordering::Relaxed));
+    let cfg: &[u8; 32] = shifted.bytes().try_into().unwrap();
     let r = catch(|| Seed::unpack_address_config(cfg));
     rep.count(&format!("unpack:{}", r.kind()));
     monitor_unpack(rep, cfg, &r);
